@@ -104,6 +104,26 @@ func c04Call(c *core.Ctx, site string, rows uint8, ntargets int, setScn func(), 
 	return err, false
 }
 
+// stepGuard runs fn under C04's logical step budget: stuck=true if the row-advance loop of
+// calculateHashes exceeded it (non-termination is C04's subject; other monitors that hand
+// damaged proofs to verifiers use this so that a spinning verifier cannot stall them).
+func stepGuard(rows uint8, ntargets int, fn func() error) (err error, stuck bool) {
+	c04InstallHook()
+	c04Steps = 0
+	c04Limit = 4 * (int(rows) + 3) * (ntargets + 2)
+	defer func() {
+		c04Limit = 0
+		if r := recover(); r != nil {
+			if _, ok := r.(stepBudgetExceeded); ok {
+				stuck = true
+				return
+			}
+			panic(r)
+		}
+	}()
+	return fn(), false
+}
+
 func trimLines(s string, n int) string {
 	l := strings.Split(s, "\n")
 	if len(l) > n {
